@@ -49,11 +49,14 @@ func (c05) Plan(tier string, seed int64) []mon.Workload {
 		{Name: "bytes", N: 3000 * m},
 		{Name: "number-soup", N: 4000 * m},
 		{Name: "concurrent-spellings", N: 12 * m, Procs: 8, MaxWorkers: 2},
+		{Name: "many-diagnostics", N: int64(len(c05DiagStmts) * 40), Exhaustive: true},
 	}
 }
 
 var c05Numbers = []string{"0x", "0X", "1e", "1e+", "1e-", "1E", "0x1.8", "08", "09.5", "1__0", "1_0", "0x1g", "1.2.3", "1..2", ".5", "5.", "0xe+1",
 	"1e5", "0x10", "00", "1e999", "0x8000000000000000", "9223372036854775808", "99999999999999999999999", "1.e3", ".e3", "0b101", "0o17", "1e+", "0x.", "0x.p1", "1ee2", "1e2e3", "inf", "nan", "INF", "Nan", "infinity", "1f", "1.5x", "0xg", "1/0", "1%0", "2/0.0", "1/-0", "0x/0"}
+
+var c05DiagStmts = []string{"x = 1 / 0", "x = 7 % 0", "x = \"\\X41\"", "x = a[1.5:]", "x = a[:\"s\"]", "for q in 1 {}", "x = 'a\\qb'", "x = -(1 / 0)", "f(k = 3 % 0)", "x = [1 / 0, 2 / 0]"}
 
 var c05NumCtx = []string{"x = %s", "x = %s中", "f(%s😀)", "x = %sé + 1", "-%s", "- %s", "+%s", "!%s", "for a in %s {}", "a[%s:]", "a[:%s]", "a[::%s]", "a[%s]", "%s + 1", "1 + %s", "f(%s)", "f(k=%s)",
 	"[%s]", "{\"k\": %s}", "{%s: 1}", "if %s {}", "x / %s", "x %% %s", "x /= %s", "(%s)", "%s[0:1]", "%s in x", "for ; %s; {}", "for %s;; {}", "x, y = %s, 1", "-%s[1:2]", "%s.a", "a.%s"}
@@ -158,6 +161,13 @@ func (k c05) inputs(c *mon.Ctx, workload string, i int64) []string {
 		}
 		ctx := []string{"x = %s", "%s", "f(%s, 1)", "if %s {}", "%s[1:2]", "x = [%s, %s]", "%s = 1", "a.%s"}[r.Intn(8)]
 		return []string{strings.ReplaceAll(ctx, "%s", q+body+closeq)}
+	case "many-diagnostics":
+		// 1..40 statements each of which is syntactically fine but recorded as
+		// an error by a grammar action (and then one real syntax error, or not)
+		st := c05DiagStmts[int(i)%len(c05DiagStmts)]
+		n := int(i)/len(c05DiagStmts) + 1
+		text := strings.Repeat(st+"\n", n)
+		return []string{text, text + "a b\n", "ok = 1\n" + text + "x = \"unterminated\n", strings.Repeat(st+"; ", n)}
 	case "number-soup":
 		// number-like fragments glued to multi-byte characters, invalid bytes
 		// and each other: the number scanner looks ahead and backs up
